@@ -5,7 +5,7 @@ import time
 from harness import core, connlib, serverlib
 
 PROP = "C10"
-LEAN_MODULES = ["MpgsModel.Props.C10"]
+LEAN_MODULES = ["MpgsModel.Props.C10", "MpgsModel.Props.C10Run"]
 MODEL_MODULES = ["MpgsModel.Model.Server", "MpgsModel.Model.ToyAead"]
 NS = "Mpgs.Server."
 THEOREMS = [
@@ -13,17 +13,22 @@ THEOREMS = [
     (NS + "C10_new_token_fresh", "full"),
     (NS + "C10_item_events", "full"),
     (NS + "C10_shutdown_disconnects_all", "full"),
+    (NS + "C10_lifecycle_whole_run", "full"),
+    (NS + "C10_lifecycle_with_shutdown", "full"),
+    (NS + "C10_connect_and_disconnect_once", "full"),
 ]
 ASSUMPTIONS = [
-    "the theorems are per-step statements about the loop model for every pool content, datagram, handler behaviour and random stream "
-    "(messages only for entries of the connected pool and with their identity, connect only on promotion (C02), never a disconnect "
-    "from datagram handling, shutdown disconnects every connected client once, tokens fresh); the whole-history regular expression "
-    "connect . message* . disconnect per connection object is their composition over iterations and is checked by the monitor on every "
-    "differential run - partial as a single Lean theorem",
+    "per-step theorems about the loop model for every pool content, datagram, handler behaviour and random stream (messages only for "
+    "entries of the connected pool and with their identity, connect only on promotion (C02), never a disconnect from datagram handling, "
+    "shutdown disconnects every connected client once, tokens fresh)",
+    "whole runs (C10_lifecycle_whole_run / _with_shutdown / C10_connect_and_disconnect_once): from an empty server, for every number of "
+    "iterations, every batch of datagrams, every handler behaviour, clock and random stream, the handler events read in order are legal - "
+    "connect only for an identity never seen before, message and disconnect only for an identity between its connect and its disconnect, "
+    "at most one of each per identity - and after the shutdown sweep no identity is left live; proved by an invariant tying both pools "
+    "(unique addresses, unique identities, identities of the connected pool = live identities) to the reading (Lemmas/Lifecycle.lean)",
     "'all handler events run on one thread' is a fact about the Python runtime: structural in the model (every handler call site is "
     "inside the loop function), observed in a threaded smoke run of the real server thread on every check",
-    "one simplification of the model: handler.connect acts after _recv_datagram returned (the code calls it from inside "
-    "_recvChallengeResponse); only observable for a challenge datagram that carries further messages, which clients never build",
+    "handler.connect runs inside _onConnect, i.e. before the remaining messages of the challenge datagram (serverRoleOn)",
 ]
 RULE = ("the REAL UdpServerThread.run executed deterministically on the harness thread (virtual clock, condition variable stub, "
         "TwistedServer.datagramReceived as entry point) with up to four real client connections per case that connect, send, disconnect, "
